@@ -81,7 +81,7 @@ def run_case(case):
            "wdata": case.get("wdata", []), "ignore": case.get("ignore", 0), "legal": 1}
     if case["seq"] == "read":
         v = VALUES[(label, case["value"])]
-        gen = v.read(addr)
+        gen = v.read_raw(addr) if case.get("raw_only") else v.read(addr)
     elif case["seq"] == "read_all":
         gen = bank_obj(label).read_all(addr, use_latch=bool(case.get("latch", 1)))
     else:
@@ -96,7 +96,9 @@ def run_case(case):
     evs, out = drive_multi(gen, answer, 700)
     rec["ev"] = evs
     o = {"exc": out["exc"], "cell": 0, "cells": []}
-    if out["exc"] == "none":
+    if out["exc"] == "none" and case.get("raw_only"):
+        rec["raw_read"] = list(out["ret"])
+    elif out["exc"] == "none":
         if case["seq"] == "read":
             w = len(v.locations) - (1 if getattr(v, "mask_length_adjust", 0) == -1 else 0)
             c = cell_of(lambda: out["ret"], w)
@@ -184,13 +186,20 @@ def unit(kind, label, mem, **kw):
     return d
 
 
-def judge(prop, tier, seed, replay, cases_fn, rule):
+def judge(prop, tier, seed, replay, cases_fn, rule, model_ops=()):
     out = core.Outcome(prop, tier, seed)
     out.is_replay = replay is not None
     init()
     with core.Scratch(prop.lower()) as sc:
         if replay is None:
             cs = cases_fn(tier, seed)
+            if model_ops:
+                # the PlusCal model of the sequences: exhaustive on the spec side, every terminal state replayed on
+                # the real sequences (identical command stream required); the replayed cases are judged as well
+                from . import seqmem
+                seqmem.model_run(out, sc, tier)
+                extra = seqmem.conformance(out, sc, model_ops)
+                cs = cs + [{k: v for k, v in c.items() if k != "raw_only"} for c in extra]
         else:
             cs = [replay["case"]["case"]]
         recs = core.pmap(run_case, cs, chunksize=32)
